@@ -517,13 +517,11 @@ theorem step_count (fixed : Bool) (s : State) (op : Op) (k : ClaimKey) (hty : fi
       have fin : ∀ dk : ClaimKey, dk = m.key →
           (if m.key = k then 1 else 0) + live (Claims.del s.claims dk) k ≤ live s.claims k := by
         intro dk hdk
-        subst hdk
-        by_cases hk : dk = k
-        · subst hk
-          simp only [if_true, live_del_self, hlive]
-          omega
-        · simp only [if_neg hk]
-          have := live_del_le s.claims k dk
+        rw [hdk]
+        by_cases hk : m.key = k
+        · rw [if_pos hk, ← hk, live_del_self, hlive]; omega
+        · rw [if_neg hk]
+          have := live_del_le s.claims k m.key
           omega
       rcases hr with ⟨_, _, h1, h2⟩ | ⟨_, _, _, _, ⟨hl, h1, h2⟩ | ⟨_, hf, h1, h2⟩⟩ <;> rw [h1, h2] <;>
         simp only [mints, accepts]
